@@ -1,10 +1,20 @@
 ENGINES = [
     {'name': 'X', 'path': 'lib/xworker.py', 'kind_free_text': 'CrossHair 0.0.110 symbolic execution of the real Python functions (z3 decides every branch), one OS process per condition, vacuity twin per condition, plain-CPython replay of every counterexample',
-     'serves_properties': ['C10', 'C17']},
+     'serves_properties': ['C06', 'C10', 'C17']},
 ]
 NOTES = ('Technique family: solver-based checking of the real code. Every result is bounded; bounds, stubs and '
          'assumptions are in evidence/<id>.json and DESIGN.md. Exit 2 of ./check = harness error (never a verdict).')
 CLAIMS = {
+    'C06': dict(
+        engine='X',
+        technique='bounded symbolic schedule exploration (CrossHair+z3 choose every scheduling decision) of the real JobServerSemaphore coroutines on a stub event loop and pipe',
+        text='For k<=4 tasks x <=2 rounds (plain acquire/job/release and the yield-job pattern), n<=2 tokens, internal and external (recursive) job server mode and one '
+             'foreign take/give of a token, EVERY schedule prefix of S steps followed by a fair completion satisfies: running jobs <= tokens (+1 implicit slot), '
+             'no exception, no lost wake-up (run completes), all tokens back in the pipe and none duplicated. Part of the property only: the cook/_cookStep orchestration '
+             '(dependency order, keep-going, one execution per workspace) is not covered yet.',
+        design_ref='DESIGN.md section 4, C06',
+        note='Trusted: stub loop/pipe semantics (any enabled action may run next: superset of asyncio orders), real asyncio.Semaphore. Outside: task cancellation (aborted builds), '
+             'Windows BoundedSemaphore branch, schedules longer than the bound, the orchestration half of the property.'),
     'C10': dict(
         engine='X',
         technique='symbolic fault plan (crash index, torn-write image) over the real _BobState persistence code on a stub POSIX file system; CrossHair+z3 decide crash points and operation sequences; bounded',
